@@ -584,3 +584,94 @@ func (c *Ctx) freshValue(v ssa.Value, depth int) bool {
 	}
 	return false
 }
+
+// ruleIdentityDelete: a function that is handed a registered object and removes "its" entry from
+// a registry map of the server must check that the entry still is that object (the entry may have
+// been replaced between the caller's decision and the removal, e.g. across a lock upgrade).
+func (c *Ctx) ruleIdentityDelete() {
+	r := c.R
+	rule := "E6.identity-delete"
+	r.Rule(rule, "registry removal by identity: in a function that receives a *T and deletes a key from a map[…]*T field of BgpServer, the delete is guarded by a comparison of the current map entry for that key with the received object", 1)
+	bs := c.P.NamedType("pkg/server", "BgpServer")
+	if bs == nil {
+		r.Undec(rule, "-", "anchor:BgpServer", "-", "not found")
+		return
+	}
+	n := 0
+	for _, fn := range c.P.FuncsIn("pkg/server") {
+		for _, b := range fn.Blocks {
+			for _, in := range b.Instrs {
+				call, ok := in.(*ssa.Call)
+				if !ok {
+					continue
+				}
+				bi, ok := call.Call.Value.(*ssa.Builtin)
+				if !ok || bi.Name() != "delete" {
+					continue
+				}
+				m := call.Call.Args[0]
+				u, ok := m.(*ssa.UnOp)
+				if !ok {
+					continue
+				}
+				fa, ok := u.X.(*ssa.FieldAddr)
+				if !ok || ir.NamedOf(fa.X.Type()) != bs {
+					continue
+				}
+				mt, ok := m.Type().Underlying().(*types.Map)
+				if !ok {
+					continue
+				}
+				// a parameter of the element type?
+				var obj *ssa.Parameter
+				for _, p := range ir.Outer(fn).Params {
+					if types.Identical(p.Type(), mt.Elem()) {
+						obj = p
+					}
+				}
+				if obj == nil || fn != ir.Outer(fn) {
+					continue
+				}
+				n++
+				fk := ir.FuncKey(fn)
+				cons := "delete " + ir.FieldOf(fa).Name() + "[key]"
+				key := call.Call.Args[1]
+				guarded := false
+				for _, g := range fn.Blocks {
+					iff, ok := g.Instrs[len(g.Instrs)-1].(*ssa.If)
+					if !ok {
+						continue
+					}
+					bo, ok := iff.Cond.(*ssa.BinOp)
+					if !ok || bo.Op.String() != "==" {
+						continue
+					}
+					var lk *ssa.Lookup
+					var other ssa.Value
+					if l, ok := bo.X.(*ssa.Lookup); ok {
+						lk, other = l, bo.Y
+					} else if l, ok := bo.Y.(*ssa.Lookup); ok {
+						lk, other = l, bo.X
+					}
+					if lk == nil || other != ssa.Value(obj) || !sameSym(lk.Index, key) {
+						continue
+					}
+					if lu, ok := lk.X.(*ssa.UnOp); !ok || !sameAddr(lu.X, fa) {
+						continue
+					}
+					if edgeDominates(g, 0, b) {
+						guarded = true
+					}
+				}
+				if guarded {
+					r.Ok(rule, fk, cons, c.P.InstrPos(call), "guarded by map[key] == "+obj.Name())
+				} else {
+					r.Bad(rule, fk, cons, c.P.InstrPos(call), "the entry is removed by key without checking that it still is the object this function was given: a replacement registered in the meantime is evicted and its goroutines become unreachable")
+				}
+			}
+		}
+	}
+	if n == 0 {
+		r.Undec(rule, "-", "anchor", "-", "no registry removal by a function that receives the registered object")
+	}
+}
